@@ -126,42 +126,3 @@ Definition da_case (tn td : Z) (p : list (Z * Z)) (use blo bhi : bool) (lo hi : 
                              && (Z.of_nat (length xs) =? snd w + 1 - fst w)), fst w, snd w)
     | _ => (0, 0, 0, 0) end end.
 
-(* ---- mesopore PSD: the implementation's thickness / Kelvin arrays come in as data; everything else is the model *)
-From PG Require Import Charact.PsdMeso.
-Open Scope Z_scope.
-Fixpoint all_close_ra (tn td : Z) (atol : Q) (qs : list Q) (ps : list (Z * Z)) : bool :=
-  match qs, ps with
-  | [], [] => true
-  | q :: qr, x :: pr => (close_q tn td q (flq x) || Qle_bool (Qabs (q - flq x)) atol) && all_close_ra tn td atol qr pr
-  | _, _ => false end.
-Definition psd_case (tn td : Z) (method g : string) (p vol thick kr : list (Z * Z)) (use blo bhi : bool) (lo hi : Z * Z) (oc : Z)
-           (widths areas volumes dist cumul : list (Z * Z)) (atv ata atd : Z * Z) : Z * Z * Z * Z :=
-  match psd_mesoporous DNum method g (mkfl p) (mkfl vol) (mkfl thick) (mkfl kr) (lims use blo bhi lo hi) with
-  | Err e => (exn_code e, b2z (oc =? exn_code e), 0, 0)
-  | Ok (r, cum, w) =>
-      (0, b2z ((oc =? 0) && all_close tn td (p_widths r) widths && all_close_ra tn td (flq ata) (p_areas r) areas
-               && all_close_ra tn td (flq atv) (p_volumes r) volumes && all_close_ra tn td (flq atd) (p_dist r) dist
-               && all_close_ra tn td (flq atv) cum cumul), fst w, snd w) end.
-
-(* ---- enthalpy methods *)
-From PG Require Import Charact.Enthalpy.
-Open Scope Z_scope.
-Fixpoint rsq_close (tn td : Z) (rows : list (enth_row DNum)) (rs : list (Z * Z)) : bool :=
-  match rows, rs with
-  | [], [] => true
-  | r :: rr, x :: xr => close_ra tn td 1 1000000000 (e_rsq r) (flq x * flq x) && rsq_close tn td rr xr
-  | _, _ => false end.
-(* the implementation's own numpy.log(pressures) rows come in as data *)
-Definition enth_case (tn td : Z) (temps : list (Z * Z)) (logp : list (list (Z * Z))) (enth slopes rs : list (Z * Z)) : Z * Z :=
-  let rows := isosteric_from_logs DNum (map mkfl logp) (mkfl temps) in
-  (Z.of_nat (length rows), b2z (all_close tn td (map e_enthalpy rows) enth && all_close tn td (map e_slope rows) slopes && rsq_close tn td rows rs)).
-(* which loadings the Whittaker loop keeps (the values are checked by interval goals over the generated whittaker_point) *)
-Definition opt_fl (b : bool) (x : Z * Z) : option Q := if b then Some (flq x) else None.
-Definition whittaker_kept_case (ns : list (Z * Z)) (ps : list (bool * (Z * Z))) (p_sat p_c p_t : Z * Z) (kept : list (Z * Z)) : Z * Z :=
-  let pts := combine (mkfl ns) (map (fun bp => opt_fl (fst bp) (snd bp)) ps) in
-  let out := whittaker_loop DNum (fun x => x) (fun x _ => x) pts 1%Q 1%Q 1%Q (flq p_sat) (flq p_c) (flq p_t) 1%Q (fun x => x) in
-  (Z.of_nat (length out), b2z (all_close 0 1 (map fst out) kept)).
-Definition init_case (has : bool) (rows : list (bool * (Z * Z))) (des : bool) (oc : Z) (v : Z * Z) : Z * Z :=
-  match initial_enthalpy_point DNum (if has then Some (map (fun r => (fst r, flq (snd r))) rows) else None) des with
-  | Ok x => (0, b2z ((oc =? 0) && Qeq_bool x (flq v)))
-  | Err e => (exn_code e, b2z (oc =? exn_code e)) end.
